@@ -272,3 +272,57 @@ pub fn threshold_of(s: &str) -> f64 {
 
 pub const PUNCT: [&str; 10] = [",", ".", ";", "…", "!", "?", ":", ", ", ". ", " ; "];
 pub const GLUE: [&str; 6] = [" ", "  ", "\t", "-", "\n", "\u{a0}"];
+
+/// Like `with_lang!`, but with an interpreter built for this run only: runs stay independent
+/// of each other (and of the other worker threads), so every violation replays from its own
+/// case. Long-lived, shared interpreters are C14's business.
+#[macro_export]
+macro_rules! with_fresh_lang {
+    ($idx:expr, $concrete:expr, $l:ident => $body:expr) => {{
+        use text2num::lang::{Dutch, English, French, German, Italian, Portuguese, Spanish};
+        use text2num::Language;
+        match ($idx as usize % 7, $concrete as bool) {
+            (0, true) => {
+                let $l = &German::new();
+                $body
+            }
+            (1, true) => {
+                let $l = &English::new();
+                $body
+            }
+            (2, true) => {
+                let $l = &Spanish::new();
+                $body
+            }
+            (3, true) => {
+                let $l = &French::new();
+                $body
+            }
+            (4, true) => {
+                let $l = &Italian::new();
+                $body
+            }
+            (5, true) => {
+                let $l = &Dutch::new();
+                $body
+            }
+            (6, true) => {
+                let $l = &Portuguese::new();
+                $body
+            }
+            (i, _) => {
+                let __f = match i {
+                    0 => Language::german(),
+                    1 => Language::english(),
+                    2 => Language::spanish(),
+                    3 => Language::french(),
+                    4 => Language::italian(),
+                    5 => Language::dutch(),
+                    _ => Language::portuguese(),
+                };
+                let $l = &__f;
+                $body
+            }
+        }
+    }};
+}
